@@ -50,6 +50,25 @@ func (vc *VC) libCall(fr *frame, n *Node, x *ssa.Call, callee *ssa.Function, arg
 		trust("sync primitives have no effect on modelled memory (mutual exclusion and happens-before are the lock/spawn rules' assumptions)")
 		vc.bindResult(n, x, sig, nil)
 		return true
+	case "(*sync.Once).Do":
+		// the function passed to Do may run here: its writes become visible (havoc of its modification set)
+		trust("sync.Once.Do(f): f runs at most once, at some call of Do; its writes are havoced at every call")
+		ms := &ModSet{all: true}
+		if len(x.Call.Args) == 2 {
+			var f *ssa.Function
+			switch v := x.Call.Args[1].(type) {
+			case *ssa.MakeClosure:
+				f, _ = v.Fn.(*ssa.Function)
+			case *ssa.Function:
+				f = v
+			}
+			if f != nil {
+				ms = vc.prog.ModSetOf(f)
+			}
+		}
+		vc.havocMods(n, ms)
+		vc.bindResult(n, x, sig, nil)
+		return true
 	case "(*sync.WaitGroup).Wait":
 		trust("sync.WaitGroup.Wait: writes of spawned goroutines become visible here")
 		if fr.goMods != nil {
